@@ -49,6 +49,7 @@ var modeVals = []bool{false, true} // continueOnError
 type cfgProbe struct {
 	prepTag, execTag, postTag, fbTag int // which function variant ran (-1 none)
 	execCalls                        int
+	prepSeenByPost                   string // dynamic type of the prep value as the post function saw it
 	sliceChanged                     bool
 	twin                             *flyt.NodeBuilder
 }
@@ -84,7 +85,8 @@ func buildPlain(cs *CfgCase) (*flyt.NodeBuilder, *cfgProbe) {
 		return func(context.Context, *flyt.SharedStore) (flyt.Result, error) { pr.prepTag = tag; return flyt.NewResult("p"), nil }
 	}
 	prepA := func(tag int) func(context.Context, *flyt.SharedStore) (any, error) {
-		return func(context.Context, *flyt.SharedStore) (any, error) { pr.prepTag = tag; return "p", nil }
+		// the Any-style prep hands back a payload whose dynamic type is flyt.Result: a value like any other, in both forms
+		return func(context.Context, *flyt.SharedStore) (any, error) { pr.prepTag = tag; return flyt.NewResult("inner"), nil }
 	}
 	execR := func(tag int) func(context.Context, flyt.Result) (flyt.Result, error) {
 		return func(context.Context, flyt.Result) (flyt.Result, error) {
@@ -97,13 +99,18 @@ func buildPlain(cs *CfgCase) (*flyt.NodeBuilder, *cfgProbe) {
 		return func(context.Context, any) (any, error) { pr.execTag = tag; pr.execCalls++; return nil, probeErr(cs) }
 	}
 	postR := func(tag int) func(context.Context, *flyt.SharedStore, flyt.Result, flyt.Result) (flyt.Action, error) {
-		return func(context.Context, *flyt.SharedStore, flyt.Result, flyt.Result) (flyt.Action, error) {
+		return func(_ context.Context, _ *flyt.SharedStore, pv, _ flyt.Result) (flyt.Action, error) {
 			pr.postTag = tag
+			pr.prepSeenByPost = fmt.Sprintf("%T", pv.Value())
 			return "ok", nil
 		}
 	}
 	postA := func(tag int) func(context.Context, *flyt.SharedStore, any, any) (flyt.Action, error) {
-		return func(context.Context, *flyt.SharedStore, any, any) (flyt.Action, error) { pr.postTag = tag; return "ok", nil }
+		return func(_ context.Context, _ *flyt.SharedStore, pv, _ any) (flyt.Action, error) {
+			pr.postTag = tag
+			pr.prepSeenByPost = fmt.Sprintf("%T", pv)
+			return "ok", nil
+		}
 	}
 	fb := func(tag int) func(any, error) (any, error) {
 		return func(any, error) (any, error) { pr.fbTag = tag; return "rescued", nil }
@@ -329,6 +336,9 @@ func runCfgPlain(cs *CfgCase) (fs []finding) {
 	}
 	if pr.postTag != f[sPost] {
 		add("post-fn:"+route, "post function variant %d ran, the last setting installed variant %d", pr.postTag, f[sPost])
+	}
+	if f[sPrep] == 1 && f[sPost] >= 0 && pr.postTag == f[sPost] && pr.prepSeenByPost != "flyt.Result" {
+		add("prep-value-altered:"+route, "the Any-style prep function returned a value of type flyt.Result; the post function received a prep value of type %s (the payload is handed on as it is, in the option form and in the builder form)", pr.prepSeenByPost)
 	}
 	wantAct := "default"
 	if f[sPost] >= 0 {
@@ -693,6 +703,43 @@ func runC19(c *Cfg) {
 				}
 			}
 			r.Nontrivial(fmt.Sprintf("cip %d %d %v", pc.built, pc.c, stop))
+		}
+	}
+	// the prep given last wins also when it yields nothing: an earlier (option-form) prep of a batch node stays replaced
+	for _, items := range []int{0, 1, 2} {
+		for _, form := range []string{"option-any", "option-result"} {
+			for runs := 1; runs <= 2; runs++ {
+				earlier, execs := 0, 0
+				var opt any
+				if form == "option-any" {
+					opt = flyt.WithPrepFuncAny(func(ctx context.Context, s *flyt.SharedStore) (any, error) {
+						earlier++
+						return []any{"template-item", "template-item-2"}, nil
+					})
+				} else {
+					opt = flyt.WithPrepFunc(func(ctx context.Context, s *flyt.SharedStore) (flyt.Result, error) {
+						earlier++
+						return flyt.NewResult([]any{"template-item"}), nil
+					})
+				}
+				bn := flyt.NewBatchNode(opt, flyt.WithExecFuncAny(func(ctx context.Context, v any) (any, error) { execs++; return v, nil })).
+					WithPrepFunc(func(ctx context.Context, s *flyt.SharedStore) ([]flyt.Result, error) {
+						out := make([]flyt.Result, items)
+						for i := range out {
+							out[i] = flyt.NewResult(i)
+						}
+						return out, nil
+					})
+				for k := 0; k < runs; k++ {
+					_, _ = flyt.Run(context.Background(), bn, flyt.NewSharedStore())
+				}
+				r.Eval()
+				r.Count("batch_prep_last_wins.cases", 1)
+				if earlier != 0 || execs != items*runs {
+					r.Violate("C19", "C19:batch-prep-last-setting", fmt.Sprintf("NewBatchNode(<%s prep>, exec).WithPrepFunc(<prep yielding %d items>), run %d time(s): the earlier prep ran %d times and exec ran %d times (want 0 and %d) — the last prep setting wins, also when it yields no items", form, items, runs, earlier, execs, items*runs), map[string]any{"family": "batch-prep-last-setting", "form": form, "items": items, "runs": runs})
+				}
+				r.Nontrivial(fmt.Sprintf("bpl %s %d %d", form, items, runs))
+			}
 		}
 	}
 	// pool size <= 0 means one worker (gated)
